@@ -187,3 +187,28 @@ def kt_reenter(value):
 
 
 _KT = [0]
+
+
+_WILD_SCHEMA = ("<schema><key name='+' attribute='w'><default key='A'>1"
+                "</default><default key='b'>2</default></key>"
+                "<sectiontype name='q' keytype='identifier'>"
+                "<key name='+' attribute='w'><default key='X'>1</default>"
+                "<default key='x'>2</default></key></sectiontype></schema>")
+KT_RELOADS = [0]
+
+
+def kt_reload(value):
+    """Key type (lower-cases) that loads a schema of its own - one with
+    keyed defaults - every time it converts a key."""
+    if not _DEPTH[0]:
+        _DEPTH[0] += 1
+        try:
+            import io
+            import ZConfig
+            KT_RELOADS[0] += 1
+            ZConfig.loadSchemaFile(io.StringIO(_WILD_SCHEMA))
+        finally:
+            _DEPTH[0] -= 1
+    if not value or not value[0].isalpha() or not value.isascii():
+        raise ValueError("bad key %r" % (value,))
+    return value.lower()
